@@ -89,6 +89,13 @@ CLAIMED = {
         "Trusted: reference codec, the scripted outstation's labelling of what it sent, recording stubs, tokio paused clock. Tasks are paired with user requests per association first-in first-out with a consistency check (function code, times, outcome); runs where the pairing is not unique (0.6 %) only get R1/R9. R5/R6 apply only to undisturbed requests (connected throughout, no fault operation, queue not full) whose steps saw nothing but clearly ignorable fragments before the decisive one; arrivals in the same millisecond as the deadline or the task start are don't-care. A connect attempt that nobody answers is ended after 21 s (operating system SYN timeout) because requests are not serviced while the client task sits in connect().",
         "DESIGN.md section 6 C16",
     ),
+    "C17": (
+        "S-MAST",
+        "deterministic simulation: seeded search over association configurations, placements of RESTART / NEED_TIME / overflow / events-available indications in responses and unsolicited messages, failure runs of every automatic task (silence, IIN2 rejection, unparsable reply), unsolicited traffic at every point of the start-up sequence, and reconnects / disable-enable at any step, against the real master over a simulated TCP seam; oracle = reference automaton of outstanding start-up obligations plus back-off arithmetic, evaluated over the recorded history",
+        "Seeded exploration (not exhaustive): per association the oracle keeps the set of outstanding obligations {clear restart, disable unsolicited, integrity, time sync, enable unsolicited, event scan} - armed at every new connection as configured, by a restart indication (clear + integrity + enable, gate closed), NEED_TIME (time sync), overflow (integrity) and events-available (event scan) in any fragment the master processed (taken at the exact processing point through hook H5) - and requires of every task start that the task is outstanding and nothing of higher rank is (order: clear, disable, integrity, time sync, enable, event scan, then periodic polls), so polls never resume early. Back-off: the n-th consecutive failure of a task is followed by a retry no earlier than min(min*2^(n-1), max) and, when the channel was idle throughout, no later than that + 2 ms. Gate: the sequences of unsolicited responses delivered (AssociationInformation) and confirmed (wire) must equal those of the responses that were empty or arrived while the gate was open (closed at connect and at a restart indication, opened by a completed integrity poll). Bounded liveness: 40 s after the last fault or deviation on a live connection nothing is outstanding.",
+        "Trusted: reference codec, recording stubs, hook H5 (moment a fragment reaches the application layer), tokio paused clock. Readings of the property built into the automaton from the start (DESIGN.md section 6 C17): a step whose own response shows the restart indication was executed by the restarted outstation and is not demanded again; a restart indication while the clear-restart task is still outstanding adds nothing; an outstation that rejects enable/disable unsolicited with IIN2 is not retried; a clear-restart answered with the bit still set counts as a failure. Unsolicited responses sent or confirmed within one round trip of a disconnect are don't-care. The scripted outstation clears events-available/overflow once the events are read, like a real one (otherwise the master is legitimately driven round in circles).",
+        "DESIGN.md section 6 C17",
+    ),
     "C04": (
         "S-OUT",
         "deterministic simulation: seeded search over request histories, virtual-time advances around the select timeout, retransmissions, reconnects/pre-emption and handler answers against the real outstation task; oracle = the property's predicate evaluated on the harness' own record of the history",
@@ -143,7 +150,7 @@ def main():
         "engines": [
             {"name": "S-LINK", "path": "harness/props/c06.rs", "serves_properties": ["C06", "C07"], "kind_free_text": "real link reader/parser/formatter (C06) and real link Layer (C07 link scenario) over a simulated physical layer; seeded streams, faults and read plans"},
             {"name": "S-OUT", "path": "harness/sout.rs", "serves_properties": ["C03", "C04", "C05", "C07", "C11", "C12", "C13", "C14"], "kind_free_text": "real OutstationTask (session, database, event buffer, real transport/link) run by the real ServerTask over simulated connections; scripted master peer using the reference codec; recording stubs for user callbacks; user transactions injected at database lock points (H4)"},
-            {"name": "S-MAST", "path": "harness/smast.rs", "serves_properties": ["C15", "C16"], "kind_free_text": "real MasterTask run by the real tcp ClientTask over a simulated network (H3) with latency and chunking; scripted outstation(s) built on the reference codec with a queue of reply policies; recording stubs for ReadHandler/AssociationHandler/AssociationInformation/Listener; user requests issued by simulated tasks through the public async API"},
+            {"name": "S-MAST", "path": "harness/smast.rs", "serves_properties": ["C15", "C16", "C17"], "kind_free_text": "real MasterTask run by the real tcp ClientTask over a simulated network (H3) with latency and chunking; scripted outstation(s) built on the reference codec with a queue of reply policies; recording stubs for ReadHandler/AssociationHandler/AssociationInformation/Listener; user requests issued by simulated tasks through the public async API"},
             {"name": "S-TRANS", "path": "harness/props/c08.rs", "serves_properties": ["C08"], "kind_free_text": "two real transport writers -> frame-level fault stage -> real transport reader (link layer + assembler) over simulated phys"},
         ],
         "checks": checks,
